@@ -111,7 +111,9 @@ namespace pika::threads::detail {
         PIKA_ASSERT(num_thread < suspend_conds_.size());
 
         PIKA_VERIF_PRE("el.sleep", this);
+        PIKA_VERIF_PRE("pu.sleep", &states_[num_thread]);
         states_[num_thread].store(runtime_state::sleeping);
+        PIKA_VERIF_POST("pu.sleep", &states_[num_thread], num_thread, 0);
         PIKA_VERIF_POST("el.sleep", this, num_thread, 0);
         PIKA_VERIF_POINT("el.pt.sleep", this, num_thread, 0);
         std::unique_lock<pu_mutex_type> l(suspend_mtxs_[num_thread]);
@@ -123,9 +125,12 @@ namespace pika::threads::detail {
         // non-blocking/locking functions to stopping or terminating, in
         // which case the state is left untouched.
         pika::runtime_state expected = runtime_state::sleeping;
+        {
+            PIKA_VERIF_SCOPE("pu.wake", &states_[num_thread], static_cast<std::uint8_t>(states_[num_thread].load()));
         PIKA_VERIF_PRE("el.wake", this);
         states_[num_thread].compare_exchange_strong(expected, runtime_state::running);
         PIKA_VERIF_POST("el.wake", this, num_thread, (static_cast<std::uint64_t>(static_cast<std::uint8_t>(expected)) << 8) | static_cast<std::uint8_t>(states_[num_thread].load()));
+        }
 
         PIKA_ASSERT(expected == runtime_state::sleeping || expected == runtime_state::stopping ||
             expected == runtime_state::terminating);
